@@ -497,6 +497,9 @@ CORNER_EXPRS = [
     "x.1", "x.1.2", "x.1e5", "x.0x1", "x.class", "x.__debug__", "__debug__", "None.x", "true.x",
     "1.x", "1 .x", "'a''b'", "'a' 'b'.x", "1e400", "-1e400", "0x", "1__0", "1.e5", "1_", "0b2",
     "09", "1e", "1.5.5", "0_0", "00_1", "1_000.000_1e1_0", ".5", "5.", "0xg", "0o8", "0B1", "0XfF",
+    # numbers written with non-ASCII decimal digits (U+0660.., U+1D7CE..)
+    "1.\u0660", "\u0660.5", "1e\u0660", "2.5e\u06603", "1\u0660", "0x\u0660", "\U0001d7ce.5", "\u0661\u0662",
+    "1_\u0660", "0b\u0661", "\uff11.\uff12",
     "'\\x'", "'\\N{foo}'", "'\\ud800'", "'\\U00110000'", "'\\777'", "'\\'", "\"\\\"",
     "℘", "᧚", "x·", "·x", "²", "x²", "٠", "a٠", "①",
     "\ud800", "'\ud800'", "x\x00", "\x00", "'\x00'", "x\x0c", "x\x85y", "x y", "﻿x",
@@ -544,6 +547,21 @@ CORNER_TAGS = [
     "include x with context without context",
     "autoescape", "autoescape x y", "filter", "filter x.y", "filter x|y", "filter x(", "filter 1",
     "filter x y", "filter f(a=1, a=2)", "print", "print 1,", "print 1, 2", "print 1 2",
+    # a name that occurs only in the arguments of a block-level filter / call
+    "set q|d(zz)", "set q|replace(zz, yy)|d(ww)", "set q|d(q)", "filter d(zz)", "filter replace(zz, yy)",
+    "call f(zz)", "call(a) f(zz, a)", "call(a=zz) f()", "macro m(a=zz)", "macro m(a, b=a)",
+    "for q in zz if yy", "for q in q", "with a=zz, b=a", "autoescape zz",
+    # statements that may produce no code, before / after / without extends
+    "print %}{% extends 'a'", "extends 'a' %}{% print", "extends x %}{% print",
+    "print %}{% extends x", "print %}{% block b %}{% endblock", "if x %}{% print %}{% endif %}{% extends 'a'",
+    "set q %}{% endset %}{% extends 'a'", "for q in x %}{% endfor %}{% extends 'a'",
+    "if x %}{% endif %}{% extends 'a'", "block b %}{% endblock %}{% extends 'a'",
+    "macro m() %}{% endmacro %}{% extends 'a'", "with %}{% endwith %}{% extends 'a'",
+    "filter f %}{% endfilter %}{% extends 'a'", "autoescape x %}{% endautoescape %}{% extends 'a'",
+    "call f() %}{% endcall %}{% extends 'a'", "do 1 %}{% extends 'a'", "debug %}{% extends 'a'",
+    "trans %}{% endtrans %}{% extends 'a'", "raw %}{% endraw %}{% extends 'a'",
+    "include 'i' %}{% extends 'a'", "import 'i' as q %}{% extends 'a'", "from 'i' import q %}{% extends 'a'",
+    "extends 'a' %}{% extends 'b'", "if x %}{% extends 'a' %}{% endif %}{% print",
     "do", "do 1,", "do x y", "break", "continue", "break x", "debug", "debug x",
     "trans a=1, a=2", "trans a,", "trans a b", "trans trimmed trimmed", "trans trimmed notrimmed",
     "trans 'c' 'd'", "trans 1", "trans a=", "trans a.b", "trans a|f", "trans :", "trans a:",
